@@ -1,2 +1,45 @@
-(** Theorems for C01: filled in below as the proofs land. *)
-From JL Require Import Base.Json.
+(** * C01: evaluation is total: a value or an error, never a panic, abort or hang.
+    Statements only; proofs are in Proofs/Totality.v.  (Model part: the logic of termination and
+    of panic-freedom.  The real stack size, allocation and process behaviour are exercised by the
+    correspondence run, not by these theorems.)
+
+    [Panic] is what the model returns where the Rust code would index past the end of a vector or
+    unwrap a None; [OutOfFuel] where the recursion budget is exhausted.  The theorems say neither
+    is reachable with a budget of (nesting depth of the rule + 1) - a bound that depends on the
+    rule only, never on the data: recursion depth of evaluation is bounded by the rule's depth. *)
+From Coq Require Import List.
+From JL Require Import Base.Json Base.F64 Base.Dec2Flt Base.Monad Model.JsOp Model.Eval Spec.Specs.
+From JL Require Import Proofs.MonadLaws Proofs.Totality Props.C04.
+From Coq Require Import String NArith ZArith.
+Local Open Scope string_scope.
+Import ListNotations.
+
+Theorem C01_no_panic_no_hang_partial :
+  scanner_lemmas ->
+  forall n r d, vdepth r < n ->
+    (exists v, snd (apply_fuel n r d) = Ok v) \/ (exists e, snd (apply_fuel n r d) = Err e).
+Proof. intros [H1 H2]. exact (no_panic_no_hang H1 H2). Qed.
+Print Assumptions C01_no_panic_no_hang_partial.
+
+Theorem C01_apply_total_partial :
+  scanner_lemmas ->
+  forall r d, (exists v, snd (apply r d) = Ok v) \/ (exists e, snd (apply r d) = Err e).
+Proof. intros [H1 H2]. exact (apply_total H1 H2). Qed.
+Print Assumptions C01_apply_total_partial.
+
+(** the public helpers that return a Result return Ok or Err; the others are total functions *)
+Theorem C01_helpers_total :
+  (forall conv step init items,
+      (exists f, fold_num conv step init items = Ok f) \/ (exists e, fold_num conv step init items = Err e)) /\
+  (forall op a b, (exists f, num_binop op a b = Ok f) \/ (exists e, num_binop op a b = Err e)) /\
+  (forall f, (exists v, to_number_value f = Ok v) \/ (exists e, to_number_value f = Err e)).
+Proof. exact (conj fold_num_total (conj num_binop_total to_number_value_total)). Qed.
+Print Assumptions C01_helpers_total.
+
+(** the inputs that used to crash the implementation, on the model *)
+Example C01_former_crashes :
+  snd (apply (Obj [(lit "var", Num (NegInt (-9223372036854775808)%Z))]) (Arr [Null; Null])) = Ok Null /\
+  snd (apply (Obj [(lit "substr", Arr [Str (lit "abc"); Num (NegInt (-9223372036854775808)%Z)])]) Null)
+    = Ok (Str (lit "abc")) /\
+  abstract_plus (Num (Float (f64_of_Z (2 ^ 1023)))) (Num (Float (f64_of_Z (2 ^ 1023)))) = Null.
+Proof. vm_compute. repeat split. Qed.
